@@ -5,6 +5,7 @@
    records as JSON lines.  Which = "subset" (C02) or "sort" (C03).            *)
 EXTENDS FrameOps, TLC, Json
 CONSTANTS MaxRows, PosCells, Emit, Which
+G == INSTANCE GroupOps
 CellSet == {NA} \cup PosCells
 VARIABLES stage, kk, jj, arg
 
@@ -24,7 +25,8 @@ SubsetArgs(n) ==
 SortArgs(n) ==
        {[op |-> "sort", keys |-> <<c>>, dirs |-> <<d>>] : c \in {"k", "j"}, d \in {1, -1}}
   \cup {[op |-> "sort", keys |-> ks, dirs |-> <<d1, d2>>] : ks \in {<<"k", "j">>, <<"j", "k">>, <<"k", "r">>}, d1 \in {1, -1}, d2 \in {1, -1}}
-Args(n) == IF Which = "sort" THEN SortArgs(n) ELSE SubsetArgs(n)
+GroupArgs(n) == {[op |-> "group", by |-> b] : b \in {<<"k">>, <<"j">>, <<"k", "j">>, <<"j", "k">>}}
+Args(n) == IF Which = "sort" THEN SortArgs(n) ELSE IF Which = "group" THEN GroupArgs(n) ELSE SubsetArgs(n)
 
 Canon == \A i \in DOMAIN kk : kk[i] = 0 /\ jj[i] = 0
 
@@ -41,5 +43,5 @@ Choose == /\ stage = "args"
           /\ stage' = "done" /\ UNCHANGED <<kk, jj>>
 Next == Grow \/ Fix \/ Choose
 Spec == Init /\ [][Next]_<<stage, kk, jj, arg>>
-Inv == stage = "done" => ModelOK(Fr, arg)
+Inv == stage = "done" => IF Which = "group" THEN G!ModelOK(Fr, arg) ELSE ModelOK(Fr, arg)
 =============================================================================
